@@ -1579,9 +1579,12 @@ class slc(exp):
         ):
             r = self.x.r[self.pos : self.pos + self.size]
             if self.x.op.unary:
-                return self.x.op(r)
-            l = self.x.l[self.pos : self.pos + self.size]
-            return self.x.op(l, r)
+                res = self.x.op(r)
+            else:
+                l = self.x.l[self.pos : self.pos + self.size]
+                res = self.x.op(l, r)
+            res.sf = self.sf
+            return res
         if self.x._is_vec:
             return vec([x[self.pos : self.pos + self.size] for x in self.x.l])
         else:
